@@ -162,7 +162,7 @@ class _Run:
         for _ in range(n_nodes):
             seeds.append(H.pop(t.weighted([6, 4, 2, 1, 1, 1][:len(H)], "config.hashseed")))
         self.n_ops = t.between(10, 60, "config.ops")
-        self.workload = t.weighted([3, 1], "config.workload")      # 0: histories, 1: value sweep
+        self.workload = t.weighted([2, 1], "config.workload")      # 0: histories, 1: value sweep
         self.ctx.workload = ("cluster-history", "value-sweep")[self.workload]
         self.corpus_bias = t.weighted([3, 3, 2], "config.corpus-bias")
         # real restarts (kill -9, new process, new hash seed) are rationed: allowed in a quarter of the runs,
@@ -177,7 +177,7 @@ class _Run:
             self.nodes.append(_LNode(i, s, self.pool.acquire(s)))
 
     # -- recipes ---------------------------------------------------------------------------------------
-    def new_recipe(self, source: Optional[int] = None, entry=None) -> int:
+    def new_recipe(self, source: Optional[int] = None, entry=None, focus=None) -> int:
         from checks import c11_gen
         t = self.t
         if source is None:
@@ -187,7 +187,7 @@ class _Run:
             # a stored example whose literals are changed under tape control: a legal instance (if the
             # constructors accept it) with non-default / falsy / unsorted arguments, for ~every registered class
             pkg, name = entry if entry is not None else t.pick(self.check.corpus_outward, "recipe.corpus-entry")
-            text, how = c11_gen.mutate_repr(t, self.check.corpus_text[(pkg, name)])
+            text, how = c11_gen.mutate_repr(t, self.check.corpus_text[(pkg, name)], focus)
             if text is not None:
                 dig = hashlib.sha1(text.encode()).hexdigest()[:8]
                 rec = {"recipe": ["mutrepr", pkg, name, text], "label": f"mut:{pkg}/{name}#{dig}", "kind": "mutated",
@@ -673,39 +673,41 @@ class _Run:
         getattr(self, "op_" + kind.replace("-", "_"))()
 
     def value_sweep(self) -> None:
-        """Workload "value-sweep": many values, short histories.  One stored example is taken and 4-10 different
-        mutants of it (now and then a generated value instead) are each built, perhaps touched, perhaps derived
-        from, and sent through JSON, repr and a pickle protocol to other nodes.  Same operations and oracles as
-        the history workload; the tape decides everything."""
+        """Workload "value-sweep": many values, short histories.  One stored example is taken and 8-24 different
+        mutants of it -- going through its literals one after the other -- (now and then a generated value
+        instead) are each built, perhaps touched, perhaps derived from, and sent through JSON and one more
+        transport to another node.  Same operations and oracles as the history workload; the tape decides
+        everything."""
         t = self.t
         entry = t.pick(self.check.corpus_outward, "sweep.entry")
-        n_items = t.between(4, 10, "sweep.items")
-        self.ctx.decide("value-sweep", f"{entry[0]}/{entry[1]}", n_items)
-        for _ in range(n_items):
-            generated = t.chance(1, 4, "sweep.generated")
-            rid = self.new_recipe(source=0 if generated else 2, entry=entry)
+        n_items = t.between(8, 24, "sweep.items")
+        offset = t.draw(64, "sweep.first-literal")
+        self.ctx.decide("value-sweep", f"{entry[0]}/{entry[1]}", n_items, offset)
+        for i in range(n_items):
+            generated = t.chance(1, 6, "sweep.generated")
+            rid = self.new_recipe(source=0 if generated else 2, entry=entry, focus=offset + i)
             node = self.pick_node("sweep.node")
             slot = self.op_build(node, rid)
             self.ctx.steps += 1
             if slot is None:
                 continue
-            if t.chance(1, 2, "sweep.touch"):
+            if t.chance(1, 3, "sweep.touch"):
                 self.op_touch(node, slot)
             subjects = [slot]
-            if t.chance(1, 2, "sweep.derive"):
+            if t.chance(1, 3, "sweep.derive"):
                 d = self.op_derive(node, slot)
                 if d is not None:
                     subjects.append(d)
             for sl in subjects:
                 if sl not in node.held:
                     continue
-                for transport in ("json", "repr", TRANSPORTS[t.pick((1, 3, 5, 6, 2), "sweep.transport")]):
+                for transport in ("json", TRANSPORTS[t.pick((4, 1, 3, 2, 5, 6), "sweep.transport")]):
                     m = self.export_one(node, sl, transport)
                     self.ctx.steps += 1
-                    if m is not None and (transport == "json" or t.chance(2, 3, "sweep.import")):
+                    if m is not None:
                         self.op_import(m)
                         self.ctx.steps += 1
-            if t.chance(1, 3, "sweep.report") and any(n.held for n in self.nodes):
+            if t.chance(1, 6, "sweep.report") and any(n.held for n in self.nodes):
                 self.op_report(self.pick_node("sweep.report.node", lambda n: n.held))
             if len(self.sample_ops) < 80:
                 self.sample_ops.append("sweep-item")
@@ -730,8 +732,8 @@ class C11(Check):
     technique = ("deterministic simulation: a tape-driven coordinator schedules value exchange between separate "
                  "interpreter processes with different PYTHONHASHSEED; injected node restarts; oracles at every "
                  "import / copy / report / corpus read")
-    rule = ("two workloads, chosen by the tape (3:1): 'cluster-history' and 'value-sweep' (one stored example, 4-10 "
-            "mutants of it, each built / touched / derived from / sent through JSON, repr and a pickle to other nodes); "
+    rule = ("two workloads, chosen by the tape (2:1): 'cluster-history' and 'value-sweep' (one stored example, 8-24 "
+            "mutants of it, each built / touched / derived from / sent through JSON and one more transport to other nodes); "
             "one run = one tape-decided history (2-4 interpreter processes with distinct hash seeds, 10-60 "
             "operations: build -- from a generated recipe, a stored example, or a stored example whose literals were "
             "mutated --, touch caches, copy, derive through a public method, export via JSON/gzip/pickle 2-5/repr, "
